@@ -30,13 +30,22 @@ PROPS = {
         level="proof",
         rule="same component as C01; the planted stream builds the message from the instantiated pattern plus extra "
              "properties and elements; non-trivial = the case meets C02's side conditions (decided in Coq by c02_pre and "
-             "embeds) with a non-empty planted assignment; harness counts distinct cases with a non-empty planted assignment.",
+             "embeds) with a non-empty planted assignment; harness counts distinct cases with a non-empty planted assignment. "
+             "Component matchenum: the exhaustive small scope (patterns of <= 3 nodes, messages of <= 4 nodes, alphabet {a,b}, variables "
+             "{?x,?y}, arrays/objects of <= 2 members, property variables): for every pair, every assignment of message sub-terms and "
+             "property names to the pattern's variables that meets C02's side conditions and embeds the pattern must be among Go's results.",
         trusted=MATCH_TRUSTED,
         assumptions=["arrays are sets; repeated variables take scalar values (C02's quantifier)"],
         runs=[dict(component="match", require="Corr.MatchCorr", require_vo="Corr/MatchCorr.vo",
                    n=dict(quick=2400, thorough=120000), shard=700, opts=dict(mode="c02"),
                    evals=dict(M="mc_mismatches", V="c02_violations", NT="c02_nontrivial", NL="c02_linear_count"),
-                   counts=("NT", "NL"))],
+                   counts=("NT", "NL")),
+              # the small scope the property names: every pattern of <= 3 nodes x every message of <= 4 nodes over the
+              # alphabet {a, b}, variables {?x, ?y}: exhaustive in the thorough tier (95,040 pairs), every 32nd pair in quick;
+              # oracle: every assignment of message parts to the variables that embeds the pattern is returned
+              dict(component="matchenum", require="Corr.MatchCorr", require_vo="Corr/MatchCorr.vo",
+                   n=dict(quick=3000, thorough=0), shard=700, opts=dict(mode="c02"),
+                   evals=dict(M="mc_mismatches", V="c02_enum_violations", NT="c02_enum_nontrivial"), counts=("NT",))],
     ),
     "C03": dict(
         level="proof",
@@ -97,9 +106,13 @@ PROPS.update({
     "C04": dict(
         level="proof", trusted=ENGINE_TRUSTED,
         rule=STEP_RULE + "Compared per step: To (node, bindings), consumed message, error class. distinct = distinct (spec, state, "
-             "pending); non-trivial = the step moved or returned an error.",
+             "pending); non-trivial = the step moved or returned an error. Component stepenum: every configuration of the current node "
+             "(4 actions x 2 branching types x every list of <= 2 branches out of 3 patterns x 4 guards x 2 targets) x 3 error settings x "
+             "3 states x 3 pending messages - one step depends on nothing else of a specification - exhaustively in the thorough tier.",
         assumptions=["a step whose guard saw several candidates is not compared (documented as arbitrary)"],
-        runs=[step_run("c04", "c04_violations", "c04_violations", "c04_nontrivial")],
+        runs=[step_run("c04", "c04_violations", "c04_violations", "c04_nontrivial"),
+              # the exhaustive family of one-step behaviours over a small vocabulary (129,816 cases; quick: every 44th)
+              dict(step_run("c04", "c04_violations", "c04_violations", "c04_nontrivial", n=(3000, 0)), component="stepenum")],
     ),
     "C05": dict(
         level="proof", trusted=ENGINE_TRUSTED,
